@@ -695,15 +695,15 @@ def gen_record_payload(rng, depth, nested_keyed, inner=False):
 def gen_keyed_list(rng, depth, fields, nested_keyed=True, values=None):
     """records with pairwise different composite keys (spec_key: type-aware).  Key field values come from
     KEY_VALUES: an int and a str may share a text, a value may contain ';field='; now and then a record lacks one of
-    the later key fields (so that {'id': '1;k=2'} and {'id': '1', 'k': '2'} both occur)"""
+    the key fields (so that {'id': '1;k=2'} and {'id': '1', 'k': '2'}, {'id': '1'} and {'k': '1'} occur)"""
     values = values or KEY_VALUES
     n = rng.choice([0, 1, 2, 3, 4, 5])
     seen, out = set(), []
     for _ in range(n):
         kv = [rng.choice(values) for _ in fields]
         rec = dict(zip(fields, kv))
-        if len(fields) > 1 and rng.random() < 0.15:
-            del rec[rng.choice(fields[1:])]
+        if len(fields) > 1 and rng.random() < 0.2:
+            del rec[rng.choice(fields)]  # any one of them: {'id': '1'} and {'k': '1'} must not meet either
         if spec_key(rec, fields) in seen:
             continue
         seen.add(spec_key(rec, fields))
